@@ -66,8 +66,15 @@ def run(ctx):
                              "while parsing / folding or stored in Code" % b.id, b.where(s.get("line")))
     for m in CELL_MAKERS:
         res.anchor(any(i["key"] == "cell-maker:" + m for i in res.instances), "cell constructor " + m)
-    # Variable::of_type (a cell maker) must not be reachable from parse roots either - except through the cut lazy statics
+    # Variable::of_type allocates a cell for `mut T`: a default value built while parsing / folding is stored in the Code and
+    # shared by every execution (and by every evaluation of that expression) instead of being fresh
+    key = "pure:of_type-at-parse-time"
     if "variable::Variable::of_type" in reach:
         ch = lib.chain(reach, "variable::Variable::of_type")
-        res.info.append("note: Variable::of_type reachable at parse time via %s" % " -> ".join(ch))
+        b = lib.body(ch[0])
+        res.bad(key, "parse/fold-time function %s builds a default value with Variable::of_type (%s): for a type containing `mut` "
+                     "that allocates a cell while parsing, which is then shared by all executions of the Code" % (ch[0], " -> ".join(ch)),
+                b.where() if b else "")
+    else:
+        res.ok(key, "", "Variable::of_type is reachable only from execution")
     return res
